@@ -56,7 +56,7 @@ func readGauges() map[string]float64 {
 }
 
 var c20Kinds = []string{"complete-1", "complete-multi", "abandon-eof", "abandon-silence", "even-first", "seq-violation", "key-mismatch", "refused", "oversize", "truncated", "idle", "open-at-shutdown", "two-sessions-one-abandoned",
-	"many-open-sessions", "reply-write-fails", "reply-write-fails-then-more", "top-of-number-space-then-restart", "walk-to-255", "session-id-reused"}
+	"many-open-sessions", "reply-write-fails", "reply-write-fails-then-more", "top-of-number-space-then-restart", "walk-to-255", "session-id-reused", "open-session-then-key-mismatch", "hangup-at-once"}
 
 func runC20(b *mon.B) {
 	r := gen.New(uint64(b.Seed), 0xC20, uint64(b.Index))
@@ -121,7 +121,15 @@ func runC20(b *mon.B) {
 		pl := &c17Handler{release: make(chan struct{})}
 		close(pl.release)
 		sp := &addrSecrets{m: map[string][]byte{}, h: tp.Wrap("initial", pl)}
-		srv := kit.Start(world, tp, tap.NewLogger(false), sp)
+		// every fifth burst runs against a server in proxy mode (each connection starts with a PROXY
+		// line, except the ones that hang up or fall silent before sending anything)
+		proxyMode := k%5 == 4
+		var sopts []tq.Option
+		if proxyMode {
+			sopts = append(sopts, tq.SetUseProxy(true))
+			b.Class("proxy-mode:" + key)
+		}
+		srv := kit.Start(world, tp, tap.NewLogger(false), sp, sopts...)
 
 		var negMu sync.Mutex
 		negative := map[string]float64{}
@@ -165,6 +173,9 @@ func runC20(b *mon.B) {
 				sp.set(addr, secret)
 			}
 			c := srv.L.Dial(addr)
+			if proxyMode && kinds[i] != "hangup-at-once" && kinds[i] != "idle" && kinds[i] != "refused" {
+				c.Feed(proxyLine())
+			}
 			typ := 1 + rr.Intn(3)
 			pkt := func(sid uint32, seq int, mark byte) []byte {
 				return pktSpec{H: rfc8907.Header{Major: 0xc, Minor: 0, Type: typ, Seq: seq, Session: sid}, Clear: markedBody(rr, typ, mark)}.wire(secret)
@@ -238,6 +249,13 @@ func runC20(b *mon.B) {
 				send(pkt(sid, 1, 'C'))
 				send(pkt(sid, 3, 'x'))
 				send(pkt(sid, 1, 'x'))
+				c.EOF()
+			case "open-session-then-key-mismatch":
+				// a login waiting for its continuation, then a packet under another key on the same
+				// connection (the server answers with its notice and closes)
+				send(pkt(sid, 1, 'C'))
+				send(pktSpec{H: rfc8907.Header{Major: 0xc, Minor: 0, Type: 1, Seq: 1, Session: sid + 1}, Clear: []byte{1, 1, 1, 1, 200, 200, 200, 200, 0xff, 0xff, 9, 9, 9}}.wire(secret))
+			case "hangup-at-once":
 				c.EOF()
 			case "even-first":
 				send(pkt(sid, 2*(1+rr.Intn(100)), 'x'))
